@@ -639,6 +639,36 @@ def r6_validation_first(ctx):
     mer = [c for c in calls_in(f.node) if call_name(c).endswith("map_over_datasets")]
     ok = bool(mer) and any(isinstance(a, ast.Starred) for a in mer[0].args) and "merge" in norm(mer[0])
     ctx.check(ok, f.qual + "#merge-all", "all run results are merged" if ok else "not all run results are merged", where=f, node=mer[0] if mer else f.node)
+    # ... on EVERY path (sa/paths.py): whatever the number of runs, the result is ONE merge over the complete list of
+    # run results - no path may merge batches / slices / partitions of it (a partition drops an incomplete tail)
+    if ok and comp is not None:
+        from sa.paths import enumerate_paths
+
+        rs_stmt = enclosing_stmt(rs)
+        blk = getattr(rs_stmt, "_parent", None)
+        body = None
+        for fld in ("body", "orelse"):
+            lst = getattr(blk, fld, None)
+            if isinstance(lst, list) and rs_stmt in lst:
+                body = lst[lst.index(rs_stmt):]
+        runs_name = None
+        if isinstance(rs_stmt, (ast.Assign, ast.AnnAssign)):
+            t_ = rs_stmt.targets[0] if isinstance(rs_stmt, ast.Assign) else rs_stmt.target
+            runs_name = t_.id if isinstance(t_, ast.Name) else None
+        res_names = {dotted(getattr(enclosing_stmt(m_), "targets", [None])[0]) if isinstance(enclosing_stmt(m_), ast.Assign) else dotted(getattr(enclosing_stmt(m_), "target", None)) for m_ in mer}
+        res_names.discard(None)
+        if body and runs_name and len(res_names) == 1:
+            res = next(iter(res_names))
+            badp = None
+            for q_ in enumerate_paths(body, containers=set()):
+                if q_.exit == "raise":
+                    continue
+                v_ = q_.env.get(res)
+                good_ = isinstance(v_, ast.Call) and call_name(v_).endswith("map_over_datasets") and any(isinstance(a_, ast.Starred) and ("_run_single_pipeline" in norm(a_.value) and isinstance(a_.value, (ast.ListComp, ast.Name)) or dotted(a_.value) == runs_name) for a_ in v_.args)
+                if not good_:
+                    badp = (q_, v_)
+                    break
+            ctx.check(badp is None, f.qual + "#merge-all-paths", "on every path the result is one merge over the complete list of run results" if badp is None else f"when {badp[0].cond_texts()[:2]} the result is `{norm(badp[1])[:80] if badp[1] is not None else None}`: not a merge over the complete list of run results (batches / partitions can drop runs)", where=f, node=mer[0])
     # validate_steps itself: has + enabled + placeholder checks (detail in C08.R4)
 
 
@@ -722,4 +752,11 @@ def r9_dask_column_cursor(ctx):
     ctx.floor(n, 4)
 
 
-RULES = [r9_dask_column_cursor, r8_parameters_applied_in_given_order, r7_dask_grid_labels, r1_enabled_filter, r2_run_space, r3_column_cursor, r4_entry_wiring, r5_names_and_zips, r6_validation_first]
+def r10_values_as_written(ctx):
+    """"Exactly the requested values": a value list given as an expression is evaluated to the numbers it denotes, element by element, unrounded and in order (eval_range; shared with C12.R7)."""
+    from props.C12 import r7_range_expressions
+
+    r7_range_expressions(ctx)
+
+
+RULES = [r10_values_as_written, r9_dask_column_cursor, r8_parameters_applied_in_given_order, r7_dask_grid_labels, r1_enabled_filter, r2_run_space, r3_column_cursor, r4_entry_wiring, r5_names_and_zips, r6_validation_first]
